@@ -1900,7 +1900,7 @@ pub fn family_modelled(name: &str) -> Option<bool> {
 fn part_b(a: &Args, out: &mut Out) {
     let thorough = a.tier == "thorough";
     let k_children = if thorough { 5 } else { 3 };
-    let seeds: Vec<u64> = if thorough { (a.seed..a.seed + 20).collect() } else { (a.seed..a.seed + 5).collect() };
+    let seeds: Vec<u64> = if thorough { (a.seed..a.seed + 20).collect() } else { (a.seed..a.seed + 8).collect() };
     let only = std::env::var("C20_ONLY").ok();
     if let Some(o) = &only {
         // a development aid; a run that skipped families must never count as a passing check
